@@ -28,6 +28,7 @@ import (
 	"sync/atomic"
 	"time"
 
+	"keepverif/harness/astfacts"
 	"keepverif/harness/hx"
 
 	"github.com/ipfs/go-log"
@@ -76,6 +77,9 @@ func gen(r *hx.Rng, n int, tier string) []string {
 			post = r.Range(1, 5)
 		}
 		ops = append(ops, fmt.Sprintf("%s %s %d", strat, hx.JoinInts(bursts), post))
+		if r.Chance(1, 12) {
+			ops = append(ops, fmt.Sprintf("teardown %d", r.Range(1, 32)))
+		}
 	}
 	return ops
 }
@@ -152,8 +156,58 @@ func raceLogSize() int64 {
 	return 0
 }
 
+// teardown <n>: the ticks channel is closed (Ticker.start tears the handler map down) while n
+// goroutines register new retransmissions (onTick) on the same ticker.
+func execTeardown(arg string) (string, string) {
+	n64, err := strconv.ParseUint(arg, 10, 32)
+	if err != nil || n64 < 1 || n64 > 64 {
+		return "bad-op", "bad"
+	}
+	n := int(n64)
+	race0 := raceLogSize()
+	base := runtime.NumGoroutine()
+	ticks := make(chan uint64)
+	ticker := retransmission.NewTicker(ticks)
+	ctx, cancel := context.WithCancel(context.Background())
+	defer cancel()
+	fn := func() error { return nil }
+	for i := 0; i < n; i++ {
+		retransmission.ScheduleRetransmissions(ctx, logger, ticker, fn, retransmission.WithStandardStrategy())
+	}
+	obs := "teardown done"
+	if !waitFor(func() bool { return retransmission.VerifC17HandlerCount(ticker) == n }) {
+		obs += " stall:register"
+	}
+	gate := make(chan struct{})
+	var wg sync.WaitGroup
+	for i := 0; i < n; i++ {
+		wg.Add(1)
+		go func() {
+			defer wg.Done()
+			<-gate
+			retransmission.ScheduleRetransmissions(ctx, logger, ticker, fn, retransmission.WithStandardStrategy())
+		}()
+	}
+	wg.Add(1)
+	go func() {
+		defer wg.Done()
+		<-gate
+		close(ticks)
+	}()
+	close(gate)
+	wg.Wait()
+	waitFor(func() bool { return runtime.NumGoroutine() <= base })
+	if raceLogSize() != race0 {
+		obs += " RACE"
+	}
+	return obs, "teardown"
+}
+
 func exec(op string) (string, string) {
 	f := strings.Fields(op)
+	if len(f) == 2 && f[0] == "teardown" {
+		return execTeardown(f[1])
+	}
 	if len(f) != 3 || (f[0] != "std" && f[0] != "backoff") {
 		return "bad-op", "bad"
 	}
@@ -405,6 +459,19 @@ func backoffTickLocked() bool {
 	return found && ok
 }
 
+// tickerHandlersLocked: Ticker.start and Ticker.onTick touch the handlers map only while
+// handlersMutex is held.
+func tickerHandlersLocked() bool {
+	ok := true
+	for _, fn := range []string{"Ticker.start", "Ticker.onTick"} {
+		g, _, err := astfacts.GuardedBy("pkg/net/retransmission/ticker.go", fn, "handlersMutex", "handlers", "nextHandlerId")
+		if err != nil || !g {
+			ok = false
+		}
+	}
+	return ok
+}
+
 func facts() []string {
 	bos := retransmission.WithBackoffStrategy()
 	tc, d, rt := retransmission.VerifC17BackoffState(bos)
@@ -413,6 +480,7 @@ func facts() []string {
 		fmt.Sprintf("nat initDelay %d", d),
 		fmt.Sprintf("nat initRetransmitTick %d", rt),
 		fmt.Sprintf("bool backoffTickLocked %v", backoffTickLocked()),
+		astfacts.BoolFact("tickerHandlersLocked", tickerHandlersLocked()),
 	}
 }
 
